@@ -331,6 +331,21 @@ def _(c, m, x):
     return k * rsome.exp(e).sum() + 1.0 <= r, ("expsum", ev, lambda xv: (rv(xv) - 1.0) / k)
 
 
+def _expsum2d(axis):
+    def build(c, m, x):
+        e0, ev0 = lin(c, x, 2, "in0")
+        e1, ev1 = lin(c, x, 2, "in1")
+        r, rv = _rhs(c, x, (2,))
+        M = rsome.rstack(e0.reshape((1, 2)), e1.reshape((1, 2)))               # a 2 x 2 argument: rows e0, e1
+        # sum over axis 0: one constraint per COLUMN; over axis 1: one per ROW
+        return rsome.exp(M).sum(axis=axis) <= r, ("expsum2d", (ev0, ev1), rv, axis)
+    return build
+
+
+case("exp-sum-2d-axis0", exact=False)(_expsum2d(0))
+case("exp-sum-2d-axis1", exact=False)(_expsum2d(1))
+
+
 @case("log-sum", exact=False)
 def _(c, m, x):
     e, ev = lin(c, x, 2, "in")
@@ -632,6 +647,23 @@ def _written_special(spec, xv, X, F, nuser):
             terms += [p_eq(z1, 1.0), K(v[s], u, 1.0)]
             us.append(u)
         return ("need", p_and(*terms), p_le(sum(us, 0.0), rv(xv)))
+    if kind == "expsum2d":
+        _, evs, rv, axis = spec
+        v = [evs[0](xv), evs[1](xv)]
+        u, terms = [[None, None], [None, None]], []
+        for s in range(4):
+            if s >= len(cones):
+                return False
+            i, j = divmod(s, 2)
+            a, uu, z1 = (X[k] for k in cones[s])
+            terms += [p_eq(z1, 1.0), K(v[i][j], uu, 1.0)]
+            u[i][j] = uu
+        t = rv(xv)
+        if axis == 0:
+            concl = p_and(*[p_le(u[0][j] + u[1][j], t[j]) for j in range(2)])
+        else:
+            concl = p_and(*[p_le(u[i][0] + u[i][1], t[i]) for i in range(2)])
+        return ("need", p_and(*terms), concl)
     if kind == "logsum":
         _, ev, rv = spec
         v = ev(xv)
